@@ -401,12 +401,19 @@ func (e *expoHistogram[N]) delta(dest *metricdata.Aggregation) int {
 		)
 		copy(hDPts[i].NegativeBucket.Counts, val.negBuckets.counts)
 
+		// hDPts is recycled memory: clear the optional fields when they are
+		// not reported, they may hold the values of another data point.
 		if !e.noSum {
 			hDPts[i].Sum = val.sum
+		} else {
+			hDPts[i].Sum = 0
 		}
 		if !e.noMinMax {
 			hDPts[i].Min = metricdata.NewExtrema(val.min)
 			hDPts[i].Max = metricdata.NewExtrema(val.max)
+		} else {
+			hDPts[i].Min = metricdata.Extrema[N]{}
+			hDPts[i].Max = metricdata.Extrema[N]{}
 		}
 
 		collectExemplars(&hDPts[i].Exemplars, val.res.Collect)
@@ -462,12 +469,19 @@ func (e *expoHistogram[N]) cumulative(dest *metricdata.Aggregation) int {
 		)
 		copy(hDPts[i].NegativeBucket.Counts, val.negBuckets.counts)
 
+		// hDPts is recycled memory: clear the optional fields when they are
+		// not reported, they may hold the values of another data point.
 		if !e.noSum {
 			hDPts[i].Sum = val.sum
+		} else {
+			hDPts[i].Sum = 0
 		}
 		if !e.noMinMax {
 			hDPts[i].Min = metricdata.NewExtrema(val.min)
 			hDPts[i].Max = metricdata.NewExtrema(val.max)
+		} else {
+			hDPts[i].Min = metricdata.Extrema[N]{}
+			hDPts[i].Max = metricdata.Extrema[N]{}
 		}
 
 		collectExemplars(&hDPts[i].Exemplars, val.res.Collect)
